@@ -276,6 +276,22 @@ class Repo:
                 return ci, ci.methods[name]
         return None
 
+    def instance_attr_assigned(self, cqn, name):
+        "does any method of the class, its bases or its subclasses assign self.<name> ?  (the attribute then exists in the real code)"
+        seen = set()
+        for c in list(self.mro(cqn)) + list(self.subclasses(cqn)):
+            if c in seen:
+                continue
+            seen.add(c)
+            ci = self.classes().get(c)
+            if ci is None:
+                continue
+            for m in ci.methods.values():
+                for n in ast.walk(m):
+                    if isinstance(n, ast.Attribute) and n.attr == name and isinstance(n.ctx, ast.Store) and isinstance(n.value, ast.Name) and n.value.id == "self":
+                        return True
+        return False
+
     def find_class_attr(self, cqn, name):
         for c in self.mro(cqn):
             ci = self.classes().get(c)
